@@ -23,6 +23,7 @@ Definition restart (s : state) : state :=
 
 (* no operation of this model needs more steps than this in the universes used *)
 Definition OPFUEL := 400.
+Global Opaque OPFUEL.
 
 Definition happly (c : cfg) (s : state) (h : hop) : state :=
   match h with
@@ -160,7 +161,7 @@ Qed.
 
 Lemma happly_gone c s h a : gone s a = true -> is_put_of a h = false -> gone (happly c s h) a = true.
 Proof.
-  intros G P. destruct h as [o|o k]; unfold is_put_of in P; simpl in *.
+  intros G P. destruct h as [o|o k]; unfold is_put_of in P; cbn [op_of] in P; unfold happly.
   - apply run_cont_gone; auto. now apply init_op_adds.
   - change (gone (fst (run_cont c k s (init_op c o))) a = true).
     apply run_cont_gone; auto. now apply init_op_adds.
